@@ -113,7 +113,7 @@ CLAIMS = {
  "C08": dict(text="Coq heap model (three field maps, head, tail, size) with every mutator transcribed statement by statement; theorems: each "
              "operation on member nodes preserves well-formedness against a ghost address list (every next/prev link, head, tail, size) "
              "and acts on it like the reference sequence operation; forward walk = sequence, backward walk = reverse; lifted to all "
-             "histories; outcome independent of payloads. Tied to /repo by walking the real list forward and backward after every "
+             "histories; outcome independent of payloads; value view for all histories (iteration yields the payloads given at creation, placed as the reference sequence of identities says; every operation stores exactly its new payloads and touches no other, unconditionally). Tied to /repo by walking the real list forward and backward after every "
              "operation of exhaustive short and random long histories, plus long equal-payload runs under a lowered recursion limit.",
              note="Python object identity is modelled as creation ordinal; operations on nodes that are not members are outside the property.",
              tech="Coq proof: refinement of a pointer heap to a list (pointwise successor/predecessor invariant), induction over histories; differential correspondence",
